@@ -48,8 +48,8 @@ func pconst(v *big.Int) lpoly {
 	}
 	return p
 }
-func pint(v int64) lpoly    { return pconst(big.NewInt(v)) }
-func patom(a string) lpoly  { return lpoly{a: big.NewInt(1)} }
+func pint(v int64) lpoly     { return pconst(big.NewInt(v)) }
+func patom(a string) lpoly   { return lpoly{a: big.NewInt(1)} }
 func (p lpoly) clone() lpoly { return pscale(p, big.NewInt(1)) }
 
 func padd(a, b lpoly) lpoly {
@@ -361,7 +361,7 @@ type limbEngine struct {
 	atomise    bool                   // name every difference/sum of two input coordinates (isCollinear's a, b, c, d)
 	diffDefs   map[string]lpoly
 	paths      int
-	instrs  int
+	instrs     int
 }
 
 func newLimbEngine(c *Ctx) *limbEngine {
